@@ -656,6 +656,9 @@ func schedules(c *vf.Ctx, shapes []shape) {
 				return
 			}
 			pre, dat := maxPre, 1
+			if !(h[0] == "ValidateBlock" && h[1] == "ApplyBlock") {
+				pre = 1 // the second preemption (thorough) is spent on the validate/apply pair; measured: ~250k executions per shape
+			}
 			if len(h) > 2 {
 				pre = vf.Pick(c, 1, 1)
 				dat = vf.Pick(c, 0, 1)
@@ -799,8 +802,12 @@ func run(c *vf.Ctx) {
 		if c.Quick() {
 			nvs = append(nvs, nv{n, 2, 1})
 		} else {
-			// thorough: all ordered pairs per block with two non-empty blocks, and three non-empty single-action blocks
-			nvs = append(nvs, nv{n, 2, 2}, nv{n, 3, 1})
+			// thorough: all ordered pairs per block with two non-empty blocks; on the mixed network also three non-empty
+			// single-action blocks
+			nvs = append(nvs, nv{n, 2, 2})
+			if n == "mixed" {
+				nvs = append(nvs, nv{n, 3, 1})
+			}
 		}
 	}
 	for _, v := range nvs {
